@@ -334,6 +334,17 @@ def step (line : String) : String :=
       let ir := match j.getObjVal? "ir" with | .ok i => irOfJson i | _ => {}
       let emit := (j.getObjValAs? Bool "emit").toOption.getD true
       (resJson (ClassKind.classKindRT ir emit) irToJson).compress
+    | .ok "stmt_chain" =>
+      let ir := match j.getObjVal? "ir" with | .ok i => irOfJson i | _ => {}
+      let emit := (j.getObjValAs? Bool "emit").toOption.getD true
+      let inl := (j.getObjValAs? Bool "inline").toOption.getD false
+      let hops : List StmtChain.Hop := match j.getObjVal? "chain" with
+        | .ok (Json.arr a) => a.toList.filterMap fun kj => match kj with
+          | Json.str "rest" => some .rest | Json.str "numpydoc" => some .numpydoc | Json.str "google" => some .google
+          | Json.str "class" => some .cls | Json.str "function" => some (.func inl) | Json.str "method" => some (.func inl)
+          | Json.str "argparse" => some .argparse | _ => none
+        | _ => []
+      (resJson (StmtChain.chain emit hops ir) irToJson).compress
     | .ok "unwrap" =>
       -- what `_set_name_and_type` (word_wrap on) reads back from wrapped, indented prose
       let t := (optStr j "text").getD []
